@@ -8,7 +8,7 @@ from ..cfg import build_cfg, calls_in, node_calls
 from ..core import Ctx, property_info, rule, share
 from ..model import AnalysisError, FuncInfo, walk_no_nested
 from ..q import A, asrc, bound_arg, enum_members, is_self_attr, kwarg, stores, unparse
-from .c03 import declare_before_use, event_grammar
+from .c03 import declare_before_use, event_grammar, writer_typestate
 
 M = "xsdata.formats.dataclass.models"
 SER = "xsdata.formats.dataclass.serializers.mixins"
@@ -25,7 +25,8 @@ property_info(
 )
 
 share("C01", "C01.R3", event_grammar)
-share("C01", "C01.R6", declare_before_use)  # a QName value whose prefix is declared too late cannot be read back
+share("C01", "C01.R6", declare_before_use)
+share("C01", "C01.R9", writer_typestate)  # text / tail state machine of the writer: mixed content cannot round-trip if tail state leaks between elements  # a QName value whose prefix is declared too late cannot be read back
 
 
 def _kind_chain(ctx: Ctx) -> tuple[dict[str, str], str | None]:
@@ -273,3 +274,28 @@ def wrapper_symmetry(ctx: Ctx) -> None:
         ctx.ob(f"{fi.name}: a var is skipped when its wrapper_qname differs from the wrapper seen", A("if _ and _.wrapper_qname != _:;continue") in asrc(fi), at=fi, construct=f"{fi.name} wrapper filter",
                msg="items bound to a field with another wrapper")
     # DictEncoder / DictDecoder (JSON) nest under var.wrapper then var.local_name - covered by C04.R2
+
+
+@rule("C01.R8")
+def any_type_marker_guard(ctx: Ctx) -> None:
+    """convert_element writes the xsi:type of an xs:anyType value for every value except None and the empty string (0 / False / 0.0 included)."""
+    ce = ctx.repo.func(f"{SER}:EventGenerator.convert_element")
+    g = build_cfg(ce.node)
+    ys = [n for n in g.stmts() if n.kind == "stmt" and "QNames.XSI_TYPE" in unparse(n.ast)]
+    if len(ys) != 1:
+        raise AnalysisError("C01.R8: xsi:type yield of convert_element not found")
+    y = ys[0]
+    deps_true = [t for t in g.nodes if t.kind == "test" and g.only_if(y.id, t.id, True)]
+    deps_false = [t for t in g.nodes if t.kind == "test" and g.only_if(y.id, t.id, False)]
+    texts_t = [A(unparse(t.ast)) for t in deps_true]
+    bare = [t for t in deps_true + deps_false if isinstance(t.ast, ast.Name) and t.ast.id == "value"]
+    ok = A("value is not None") in texts_t and A("value != ''") in texts_t and A("var.any_type") in texts_t and not bare
+    ctx.ob("convert_element: the xsi:type marker depends on `value is not None`, `value != \"\"` and var.any_type - never on the truthiness of the value", ok, at=ce, node=y.ast, construct="any_type marker guard",
+           msg="a truthiness test drops the marker for 0, False, 0.0, Decimal(0): the value is written without xsi:type and parses back as the string '0' / 'false'")
+    ds = [t for t in deps_true if A(unparse(t.ast)) == A("datatype != DataType.STRING")]
+    ctx.ob("convert_element: strings are the only datatype written without a marker", len(ds) == 1, at=ce, construct="string exempt", msg="marker exemption changed")
+
+
+from .c04 import exact_type_choice_lookup  # noqa: E402
+
+share("C01", "C01.R10", exact_type_choice_lookup)
